@@ -378,23 +378,33 @@ inductive WOp
   | update (us : List (String × Val))   -- uuid, patch
   | delete (us : List String)
 
-def updateOne (acc : List Point × List PChange) (u : String × Val) : List Point × List PChange :=
-  match acc.1.find? (fun p => p.uuid == u.1) with
-  | none => acc
-  | some p =>
-    let d := mergeDoc p.doc u.2
-    (acc.1.map (fun x => if x.id == p.id then { x with doc := d } else x), acc.2 ++ [⟨p.id, some p.doc, some d⟩])
+/-- `UpdatePoints`, point by point in batch order: unknown uuids are skipped, the merged document is
+written at once (a second change to the same point sees the first) -/
+def updateAll : List Point → List (String × Val) → List Point × List PChange
+  | pts, [] => (pts, [])
+  | pts, u :: us =>
+    match pts.find? (fun p => p.uuid == u.1) with
+    | none => updateAll pts us
+    | some p =>
+      let d := mergeDoc p.doc u.2
+      let r := updateAll (pts.map fun x => if x.id == p.id then { x with doc := d } else x) us
+      (r.1, ⟨p.id, some p.doc, some d⟩ :: r.2)
 
-def deleteOne (acc : List Point × List PChange) (u : String) : List Point × List PChange :=
-  match acc.1.find? (fun p => p.uuid == u) with
-  | none => acc
-  | some p => (acc.1.filter (fun x => !(x.id == p.id)), acc.2 ++ [⟨p.id, some p.doc, none⟩])
+/-- `DeletePoints` (Go iterates the uuid set in map order; distinct points are independent) -/
+def deleteAll : List Point → List String → List Point × List PChange
+  | pts, [] => (pts, [])
+  | pts, u :: us =>
+    match pts.find? (fun p => p.uuid == u) with
+    | none => deleteAll pts us
+    | some p =>
+      let r := deleteAll (pts.filter fun x => !(x.id == p.id)) us
+      (r.1, ⟨p.id, some p.doc, none⟩ :: r.2)
 
 /-- the new point store and the `IndexPointChange`s of a batch, in order -/
 def pointChanges (pts : List Point) : WOp → List Point × List PChange
   | .insert ps => (pts ++ ps, ps.map fun p => ⟨p.id, none, some p.doc⟩)
-  | .update us => us.foldl updateOne (pts, [])
-  | .delete us => us.foldl deleteOne (pts, [])
+  | .update us => updateAll pts us
+  | .delete us => deleteAll pts us
 
 def St.apply (st : St) (op : WOp) : St :=
   let r := pointChanges st.pts op
